@@ -21,10 +21,12 @@ ANGSTROM = 1e-10
 
 BOUNDS = {
     'quick': 'displacement-form trajectories (steps any reals in [-1/2,1/2], so atoms may cross faces arbitrarily often), '
-             '(T,A) in {(2,1),(3,1),(3,2),(4,1)} on pool lattices cubic5, hex558, tric, cubic5_rotz; dimensions 1..3',
-    'thorough': '(T,A) up to (5,2), (6,1) on all 11 pool lattices',
+             '(T,A) in {(2,1),(3,1),(3,2),(4,1)} on pool lattices cubic5, hex558, tric, cubic5_rotz; dimensions 1..3; '
+             'msd_after_extend_*: first 2 frames analysed, same object extended in place by 1 frame, analysed again (1 atom along one axis, cubic5/tric)',
+    'thorough': '(T,A) up to (5,2), (6,1) on all 11 pool lattices; msd_after_extend_* with T1+T2 <= 4 on 5 lattices',
 }
-OUTSIDE = ['floating-point rounding of the FFT and of sums', 'T above the bound']
+OUTSIDE = ['floating-point rounding of the FFT and of sums', 'T above the bound',
+           'history variant (analyse, extend() in place, analyse again): one atom moving along one cell axis, steps in [-0.4,0.4]']
 ASSUMPTIONS = [
     'input in displacement form (minimum-image steps + base positions): that GEMDAT derives these steps from wrapped positions is C01',
     'np.fft.fft/ifft: ifft(|fft(x, n)|^2) = circular autocorrelation of x zero-padded to n (Wiener-Khinchin, exact in the reals)',
@@ -130,7 +132,110 @@ def msd_job_replay(params, inputs):
     return True, 'ok'
 
 
-REPLAYS = dict(msd_job=msd_job_replay)
+def extend_job(params):
+    """History variant: analyse the first T1 frames, extend the *same* object in place, analyse again."""
+    T1, T2, lat, dims = params['T1'], params['T2'], params['lattice'], params['dims']
+    T = T1 + T2
+    M = pool.lattice_matrices()[lat]
+    Mr = np.asarray(rat_array(M))
+    dt = 2e-15
+    ax = params.get('axis', 0)
+
+    def body():
+        import gemdat.metrics as gmx
+        import gemdat.trajectory as gt
+        import pymatgen.core.trajectory as pt
+        from pymatgen.core import Lattice
+        with Patches() as p:
+            p.np(gt, pt, gmx)
+            p.set(core, 'FLOOR_FORK', True)  # wrap / minimum image of extend() are decided by forking, the rest is polynomial
+            p.set(gmx, 'FloatWithUnit', lambda x, unit: x)
+            p.set(gmx, 'angstrom', F(1, 10 ** 10))
+            Gr = np.dot(Mr, Mr.T).view(type(rat_array(M)))
+            p.set(Lattice, 'metric_tensor', property(lambda self: Gr))
+            lo, hi = F(-2, 5), F(2, 5)  # steps strictly inside the half cell: no minimum-image tie when re-derived
+            x = [sym_real(f'x_{t}', lo, hi) for t in range(1, T)]
+            b0 = sym_real('b', 0, 1, hi_strict=True)
+            vec = lambda v: [v if c == ax else 0 for c in range(3)]
+            d1 = S([[vec(0 if t == 0 else x[t - 1])] for t in range(T1)])
+            b1 = S([vec(b0)])
+            base2 = b0 + core.ssum([x[t - 1] for t in range(1, T1)]) + x[T1 - 1]
+            d2 = S([[vec(0 if t == 0 else x[T1 + t - 1])] for t in range(T2)])
+            b2 = S([vec(base2)])
+            try:
+                tr = _mk(gt, d1.copy(), b1.copy(), M, core.rat(dt))
+                other = _mk(gt, d2.copy(), b2.copy(), M, core.rat(dt))
+                # earlier queries on the object that is extended next (answers belong to the first T1 frames only)
+                tr.mean_squared_displacement(); tr.distances_from_base_position()
+                gmx.TrajectoryMetrics(tr).tracer_diffusivity(dimensions=3)
+                tr.extend(other)
+                msd = tr.mean_squared_displacement()
+                dist = tr.distances_from_base_position()
+                Ds = {dim: gmx.TrajectoryMetrics(tr).tracer_diffusivity(dimensions=dim) for dim in dims}
+            except Exception as e:
+                event(f'exception:{type(e).__name__}', detail=str(e)[:200])
+                return
+            prove('after extend: msd covers all frames', tuple(msd.shape) == (1, T))
+            prove('after extend: distances cover all frames', tuple(dist.shape) == (1, T))
+            row = Mr[ax]
+            n2 = core.ssum([row[j] * row[j] for j in range(3)])
+            cum = [core.ssum(x[:t]) if t else 0 for t in range(T)]
+            for tau in range(T):
+                exp = core.ssum([(cum[t + tau] - cum[t]) ** 2 * n2 for t in range(T - tau)]) / (T - tau)
+                prove('after extend: msd[i,tau] = mean over time origins of |r(t+tau)-r(t)|^2', msd[0, tau] == exp)
+            for t in range(T):
+                prove('after extend: distance from start = Cartesian length of the unwrapped displacement', dist[0, t] ** 2 == cum[t] ** 2 * n2)
+            for dim in dims:
+                exp = (cum[T - 1] ** 2 * n2) * core.rat(ANGSTROM) ** 2 / (2 * dim * T * core.rat(dt))
+                prove('after extend: tracer diffusivity = final squared displacement / (2 d t_total)', Ds[dim] == exp)
+            sample(dict(T1=T1, T2=T2, lattice=lat))
+
+    return symbolic_job(params, body, extend_job_replay)
+
+
+def extend_job_replay(params, inputs):
+    import gemdat.metrics as gmx
+    import gemdat.trajectory as gt
+    T1, T2, lat, dims = params['T1'], params['T2'], params['lattice'], params['dims']
+    T = T1 + T2
+    ax = params.get('axis', 0)
+    M = pool.lattice_matrices()[lat]
+    dt = 2e-15
+    x = [float(inputs.get(f'x_{t}', 0)) for t in range(1, T)]
+    if any(abs(v) > 0.45 for v in x):
+        return True, 'outside the band (step next to the half-cell tie)'
+    b0 = float(inputs.get('b', 0))
+    vec = lambda v: [v if c == ax else 0.0 for c in range(3)]
+    d1 = np.array([[vec(0.0 if t == 0 else x[t - 1])] for t in range(T1)])
+    d2 = np.array([[vec(0.0 if t == 0 else x[T1 + t - 1])] for t in range(T2)])
+    tr = _mk(gt, d1, np.array([vec(b0)]), M, dt)
+    other = _mk(gt, d2, np.array([vec(b0 + sum(x[:T1]))]), M, dt)
+    tr.mean_squared_displacement(); tr.distances_from_base_position()
+    gmx.TrajectoryMetrics(tr).tracer_diffusivity(dimensions=3)
+    tr.extend(other)
+    cum = np.concatenate([[0.0], np.cumsum(x)])
+    r = cum[:, None] * M[ax][None, :]
+    desc = f'lattice={lat} b={b0} steps={x} (first {T1} frames analysed, then extend() by {T2})'
+    msd = tr.mean_squared_displacement()
+    dist = tr.distances_from_base_position()
+    if msd.shape != (1, T) or dist.shape != (1, T):
+        return False, f'after extend msd shape {msd.shape}, distances shape {dist.shape}, expected {(1, T)}; {desc}'
+    scale = 1 + float(np.abs(r).max()) ** 2
+    for tau in range(T):
+        e = np.mean([np.sum((r[t + tau] - r[t]) ** 2) for t in range(T - tau)])
+        if abs(msd[0, tau] - e) > 1e-9 * scale:
+            return False, f'after extend msd[0,{tau}]={msd[0, tau]} != {e}; {desc}'
+    if np.abs(dist[0] - np.linalg.norm(r, axis=-1)).max() > 1e-9 * scale:
+        return False, f'after extend distances {dist.tolist()} != Cartesian lengths; {desc}'
+    for dim in dims:
+        got = float(gmx.TrajectoryMetrics(tr).tracer_diffusivity(dimensions=dim))
+        e = np.sum(r[-1] ** 2) * ANGSTROM ** 2 / (2 * dim * T * dt)
+        if abs(got - e) > 1e-9 * max(abs(e), 1e-300):
+            return False, f'after extend tracer_diffusivity({dim})={got} != {e}; {desc}'
+    return True, 'ok'
+
+
+REPLAYS = dict(msd_job=msd_job_replay, extend_job=extend_job_replay)
 
 
 def jobs(tier, seed):
@@ -139,4 +244,8 @@ def jobs(tier, seed):
     else:
         cfg = [(T, A, lat) for (T, A) in ((2, 1), (3, 1), (3, 2), (4, 1)) for lat in pool.ALL_LATTICES] + \
               [(5, 2, 'tric'), (6, 1, 'hex558'), (5, 1, 'rhomb60'), (3, 2, 'rand_a'), (4, 1, 'rand_b')]
-    return [dict(name=f'msd_T{T}_A{A}_{lat}', fn='msd_job', params=dict(T=T, A=A, lattice=lat, dims=[1, 2, 3])) for T, A, lat in cfg]
+    ext = [(2, 1, 'cubic5', 0), (2, 1, 'tric', 1)] if tier == 'quick' else \
+          [(2, 1, 'cubic5', 0), (2, 1, 'tric', 1), (2, 2, 'hex558', 0), (3, 1, 'mono567b110', 2), (1, 2, 'rhomb60', 1)]
+    return [dict(name=f'msd_T{T}_A{A}_{lat}', fn='msd_job', params=dict(T=T, A=A, lattice=lat, dims=[1, 2, 3])) for T, A, lat in cfg] + \
+           [dict(name=f'msd_after_extend_T{a}+{b}_{lat}_axis{ax}', fn='extend_job', params=dict(T1=a, T2=b, lattice=lat, axis=ax, dims=[1, 2, 3]))
+            for a, b, lat, ax in ext]
